@@ -22,6 +22,7 @@ import (
 	"regexp"
 	"runtime/debug"
 	"sort"
+	"strings"
 	"time"
 
 	"github.com/LemoFoundationLtd/lemochain-core/chain/account"
@@ -508,7 +509,7 @@ func driveRecover(args []string) error {
 		defer func() {
 			if r := recover(); r != nil {
 				st := string(debug.Stack())
-				lg.put(map[string]interface{}{"ev": "Recover", "opened": false, "died": false, "open_panic": fmt.Sprint(r), "site": site(st), "panic_in": panicFuncs(st)})
+				lg.put(map[string]interface{}{"ev": "Recover", "opened": false, "died": false, "open_panic": fmt.Sprint(r), "panic_head": strings.TrimSpace(strings.SplitN(fmt.Sprint(r), ":", 2)[0]), "site": site(st), "panic_in": panicFuncs(st)})
 				ok = false
 			}
 		}()
